@@ -58,7 +58,7 @@ class FunctionRun:
         self.gen_s = 0.0
 
 
-def run_contract(world, con, tier="quick"):
+def run_contract(world, con, tier="quick", only_case=None):
     t0 = time.time()
     try:
         fsrc = extract.get_function(con.file, con.qualname, con.which)
@@ -69,6 +69,8 @@ def run_contract(world, con, tier="quick"):
     out = FunctionRun(con, fsrc)
     rets, raises = exit_ordinals(fsrc.node)
     for case_name, case in con.cases.items():
+        if only_case is not None and case_name != only_case:
+            continue
         ex = Engine(world, fsrc, con, case_name, case, tier)
         try:
             ex.explore(lambda: _one_path(world, ex, con, fsrc, case, rets, raises, out))
@@ -284,6 +286,7 @@ def run_lemma(world, lemma, tier="quick"):
     con = LemmaContract(lemma)
     out = FunctionRun(con, fsrc)
     out.is_lemma = True
+    reached_all = set()
     for case_name, case in lemma.cases.items():
         ex = LemmaEngine(world, fsrc, con, case_name, case, tier)
 
@@ -311,6 +314,13 @@ def run_lemma(world, lemma, tier="quick"):
         out.used_externals |= ex.used_externals
         out.used_callees |= getattr(ex, "all_callees", set())
         out.cases.append(case_name)
+        reached_all |= set(o.label for o in ex.obligations if o.kind == "lemma" and o.label != "no-exception")
+    # vacuity guard: every assert of the lemma program must be reached on some path of some case
+    n_asserts = sum(1 for n in ast.walk(node) if isinstance(n, ast.Assert))
+    if len(reached_all) < n_asserts and out.status == "ok":
+        out.status = "undecided"
+        out.reason = "lemma %s: only %d of %d asserts reachable (a hypothesis or callee contract is contradictory: vacuous)" % (
+            lemma.name, len(reached_all), n_asserts)
     out.gen_s = time.time() - t0
     return out
 
